@@ -450,3 +450,65 @@ theorem MemBytes.lt_length {m : Mem} {b : Nat} {cells : List UInt8} (h : MemByte
   · rw [List.getElem?_eq_none h] at h1; cases h1
 
 end MiniC
+
+namespace MiniC
+
+/-! ### `memcpy` / `memmove` on initialised objects, `strstr` -/
+
+theorem MemBytes.loadBytes {m : Mem} {b : Nat} {cells : List UInt8} (h : MemBytes m b cells) :
+    ∀ (n i : Nat), i + n ≤ cells.length → m.loadBytes b (i : Int) n = .ok ((cells.drop i).take n)
+  | 0, i, _ => by simp [Mem.loadBytes]
+  | n + 1, i, hle => by
+    have hi : i < cells.length := by omega
+    have ih := MemBytes.loadBytes h n (i + 1) (by omega)
+    have e : ((i + 1 : Nat) : Int) = (i : Int) + 1 := by omega
+    rw [e] at ih
+    have hd : cells.drop i = cells[i] :: cells.drop (i + 1) := by rw [List.drop_eq_getElem_cons]
+    simp only [Mem.loadBytes, h.load8 i hi, ih, bind, Except.bind]
+    rw [hd, List.take_succ_cons]
+    rw [byte_of_sch cells[i]]
+
+theorem MemBytes.storeBytes_at {m : Mem} {b : Nat} : ∀ (l : List UInt8) {cells : List UInt8} (h : MemBytes m b cells) (i : Nat),
+    i + l.length ≤ cells.length →
+    ∃ m', m.storeBytes b (i : Int) l = .ok m' ∧ MemBytes m' b (cells.take i ++ l ++ cells.drop (i + l.length)) ∧ m'.length = m.length ∧
+      ∀ b', b' ≠ b → m'[b']? = m[b']?
+  | [], cells, h, i, _ => ⟨m, rfl, by simpa using h, rfl, fun _ _ => rfl⟩
+  | c :: cs, cells, h, i, hle => by
+    have hi : i < cells.length := by simp at hle; omega
+    obtain ⟨m1, hs1, hp1, hl1, ho1⟩ := h.store8_int i hi (c.toNat : Int)
+    rw [byteOf_toNat] at hp1
+    obtain ⟨m2, hs2, hp2, hl2, ho2⟩ := MemBytes.storeBytes_at (m := m1) cs hp1 (i + 1) (by simp at hle ⊢; omega)
+    refine ⟨m2, ?_, ?_, hl2.trans hl1, fun b' hb' => by rw [ho2 b' hb', ho1 b' hb']⟩
+    · have e : ((i + 1 : Nat) : Int) = (i : Int) + 1 := by omega
+      rw [e] at hs2
+      simp [Mem.storeBytes, hs1, bind, Except.bind, hs2]
+    · have e1 : (cells.set i c).take (i + 1) = cells.take i ++ [c] := by
+        rw [List.take_succ_eq_append_getElem (by simpa using hi)]
+        simp [List.take_set_of_le]
+      have e2 : (cells.set i c).drop (i + 1 + cs.length) = cells.drop (i + (c :: cs).length) := by
+        rw [List.drop_set_of_lt (by omega)]
+        congr 1; simp; omega
+      rw [e1, e2] at hp2
+      simpa using hp2
+
+theorem findSub_bound (pat : List UInt8) : ∀ (s : List UInt8) (k i : Nat), findSub pat s k = some i →
+    k ≤ i ∧ (i - k) + pat.length ≤ s.length
+  | [], k, i, h => by
+    simp only [findSub] at h
+    split at h
+    · rename_i he
+      simp at h; subst h
+      have : pat = [] := by simpa using he
+      simp [this]
+    · cases h
+  | c :: cs, k, i, h => by
+    simp only [findSub] at h
+    split at h
+    · rename_i hp
+      simp at h; subst h
+      have := List.IsPrefix.length_le (List.isPrefixOf_iff_prefix.1 hp)
+      simp at this ⊢; omega
+    · have := findSub_bound pat cs (k + 1) i h
+      simp; omega
+
+end MiniC
